@@ -49,6 +49,9 @@ class C08(Prop):
                 if c['market']['adjust'] and c['cfg'].get('lookbacks') is None and rng.random() < 0.6:
                     c['default_handler'] = True         # data_handler=None: built by the session from QSTRADER_CSV_DATA_DIR
                     c['stream'] += ':default-handler'
+                    if rng.random() < 0.4:
+                        c['default_handler'] = 'cwd'    # ... or, with the variable unset, from the current directory
+                        c['stream'] += ':cwd'
         return out
 
     @staticmethod
